@@ -350,3 +350,20 @@ pub fn repo_bin(name: &str) -> std::path::PathBuf
 	let root = std::env::var("VERIF_ROOT").unwrap_or_else(|_| "/verif".to_owned());
 	std::path::PathBuf::from(root).join("harness/target/repo-bins/release").join(name)
 }
+
+/// SYSm numbers of the special registers as the ARMv6-M manual assigns them (B5.2.2/B5.2.3), by variant NAME:
+/// the harness never relies on the crate's own numeric conversion of `SystemReg`.
+pub const SYSM: [(u8, trion::arm6m::sysreg::SystemReg); 11] = {
+	use trion::arm6m::sysreg::SystemReg::*;
+	[(0, APSR), (1, IAPSR), (2, EAPSR), (3, XPSR), (5, IPSR), (6, EPSR), (7, IEPSR), (8, MSP), (9, PSP), (16, PRIMASK), (20, CONTROL)]
+};
+
+pub fn sysm_of(s: trion::arm6m::sysreg::SystemReg) -> u8
+{
+	SYSM.iter().find(|(_, v)| *v == s).map(|(n, _)| *n).expect("SystemReg variant not in the architectural table")
+}
+
+pub fn sysreg_of(n: u8) -> Option<trion::arm6m::sysreg::SystemReg>
+{
+	SYSM.iter().find(|(m, _)| *m == n).map(|(_, v)| *v)
+}
